@@ -224,6 +224,6 @@ Example multi_nontrivial :
   /\ filter (from 6) (snd (recv_all ex_rc [] net)) = [(6, repeat x41 9)].
 Proof.
   cbv zeta. split.
-  - intros b q H. cbn [In] in H. repeat destruct H as [H|H]; try (injection H as <- _; cbn; tauto); destruct H.
+  - intros b q H. apply (in_map fst) in H. cbn [fst map] in H. cbn [In] in *. intuition.
   - vm_compute. split; reflexivity.
 Qed.
